@@ -45,11 +45,20 @@ func genIndexProgram(t *rapid.T, seg uint64) pgen.Prog {
 		idx.Inputs = []gdsl.In{{T: "map", Ref: "map_src"}}
 	}
 	g.Mods = append(g.Mods, idx)
+	// mapFed: nothing but map_src reads the chain, so a job that finds map_src's outputs in the cache does not read
+	// the block source at all (tier2 canSkipBlockSource) and builds the index from the cached outputs
+	mapFed := len(g.Mods) == 2 && rapid.Bool().Draw(t, "mapfed")
 	n := rapid.IntRange(2, 4).Draw(t, "nfiltered")
 	out := gdsl.Mod{Name: "out", Kind: "map", Inputs: []gdsl.In{{T: "source", Ref: gdsl.ClockType}}}
+	if mapFed {
+		out.Inputs = nil
+	}
 	lowest := ^uint64(0)
 	for i := 0; i < n; i++ {
 		m := gdsl.Mod{Name: fmt.Sprintf("flt_%d", i), Kind: "map", Inputs: []gdsl.In{{T: "source", Ref: gdsl.BlockType}}}
+		if mapFed {
+			m.Inputs = []gdsl.In{{T: "map", Ref: "map_src"}}
+		}
 		if i == n-1 && rapid.IntRange(0, 2).Draw(t, "filteredstore") == 0 {
 			m.Kind, m.Name, m.Policy, m.VType = "store", fmt.Sprintf("fst_%d", i), "add", "int64"
 		}
@@ -116,6 +125,7 @@ func genC15E2E(t *rapid.T) c15Case {
 type c15Stats struct {
 	indexFiles       int
 	skipped, notSkip int
+	fromCached       int
 }
 
 func checkC15E2E(c c15Case) (*ev.Failure, c15Stats) {
@@ -236,6 +246,53 @@ func checkC15E2E(c c15Case) (*ev.Failure, c15Stats) {
 			return f, st
 		}
 	}
+	// scenario 4: only the outputs of the mapper the index reads are cached (the jobs may then build the index without
+	// reading the block source); scenario 5: only the index files built that way
+	if h, ok := hashes["map_src"]; ok {
+		srcDir := "test.store/tag/" + h + "/outputs/"
+		sub := map[string][]byte{}
+		for rel, raw := range tree {
+			if strings.HasPrefix(rel, srcDir) {
+				sub[rel] = raw
+			}
+		}
+		if len(sub) > 0 {
+			dir := newDir()
+			writeTree(dir, sub)
+			S := execute(c.Prog, c.Run, c.Seg, c.Head, dir, false)
+			tree4 := readTree(dir)
+			os.RemoveAll(dir)
+			if S.res.Err != nil {
+				return ev.Failf("run-error/upstream-outputs-cached", "only the outputs of map_src cached: the request failed: %v", S.res.Err), st
+			}
+			if f := compareStreams(S.res, L.res, c.Run); f != nil {
+				f.Sig = "upstream-outputs-cached/" + f.Sig
+				f.Msg = "only the outputs of map_src cached: " + f.Msg
+				return f, st
+			}
+			idx4 := map[string][]byte{}
+			for rel, raw := range tree4 {
+				if strings.HasPrefix(rel, idxDir) {
+					idx4[rel] = raw
+				}
+			}
+			if len(idx4) > 0 {
+				dir := newDir()
+				writeTree(dir, idx4)
+				S := execute(c.Prog, c.Run, c.Seg, c.Head, dir, false)
+				os.RemoveAll(dir)
+				if S.res.Err != nil {
+					return ev.Failf("run-error/index-built-from-cached-outputs", "index files built from cached outputs: the request failed: %v", S.res.Err), st
+				}
+				if f := compareStreams(S.res, L.res, c.Run); f != nil {
+					f.Sig = "index-built-from-cached-outputs/" + f.Sig
+					f.Msg = fmt.Sprintf("on the %d index files built by jobs that read map_src's cached outputs: %s", len(idx4), f.Msg)
+					return f, st
+				}
+				st.fromCached++
+			}
+		}
+	}
 	return nil, st
 }
 
@@ -258,12 +315,16 @@ func subsetOf(files []string, keep []int) []string {
 
 func TestC15Index(t *testing.T) {
 	r := ev.Get("C15", "IndexFiles")
-	r.Rule = "rapid: programs with one block-index module (reading the block, or a mapper that skips outputs) and 2..4 filtered modules sharing it (single-key bare/quoted/parenthesised filters and and/or combinations, different initial blocks, optionally a filtered store) feeding one output mapper; a production request over 1..3 back-filled segments run (1) on an empty cache (index being built by the jobs), (2) on a cache holding only the index files of (1), (3) on a subset of them, each compared with the sequential dev-mode execution, in which every filtered module must have run exactly on the blocks whose own keys satisfy its filter; non-trivial = at least one block skipped and one not skipped, and index files existed"
+	r.Rule = "rapid: programs with one block-index module (reading the block, or a mapper that skips outputs) and 2..4 filtered modules sharing it (single-key bare/quoted/parenthesised filters and and/or combinations, different initial blocks, optionally a filtered store) feeding one output mapper; a production request over 1..3 back-filled segments run (1) on an empty cache (index being built by the jobs), (2) on a cache holding only the index files of (1), (3) on a subset of them, (4) with only the outputs of the mapper the index reads (in half of those programs nothing else reads the chain, so the jobs build the index without the block source), (5) on the index files built in (4), each compared with the sequential dev-mode execution, in which every filtered module must have run exactly on the blocks whose own keys satisfy its filter; non-trivial = at least one block skipped and one not skipped, and index files existed"
 	rapid.Check(t, func(rt *rapid.T) {
 		c := genC15E2E(rt)
 		r.Begin(c)
 		f, st := checkC15E2E(c)
-		r.Case(c, st.indexFiles > 0 && st.skipped > 0 && st.notSkip > 0, fmt.Sprintf("index-files<=%d", bucketInt(st.indexFiles)))
+		cl := []string{fmt.Sprintf("index-files<=%d", bucketInt(st.indexFiles))}
+		if st.fromCached > 0 {
+			cl = append(cl, "index-built-from-cached-upstream-outputs")
+		}
+		r.Case(c, st.indexFiles > 0 && st.skipped > 0 && st.notSkip > 0, cl...)
 		r.Report(rt, c, f)
 	})
 }
